@@ -4,6 +4,7 @@ CONSTANTS
   MaxLen = 8
   KeyMode = "ideal"
   StoreMode = "store"
+  HitMode = "identity"
   Random = TRUE
 INIT Init
 NEXT Next
